@@ -1,7 +1,7 @@
 (* C07 -- H-Revolve family schedules achieve their cost optimum for any cost vector
    Property theorems only: each proof is one application of a lemma proved in Proofs/, followed by Print Assumptions. *)
 From Coq Require Import ZArith List Bool.
-From CS Require RevCost RevConv RevBridge4 RevolveRun Opt0Table DiskCost.
+From CS Require RevCost RevConv RevBridge4 RevolveRun Opt0Table DiskCost DiskCount.
 From CS Require Import Actions NAdvance Multistage Exec Sched RunFacts Projections BasicInv MultistageRun AllocTotal TLBridge MixBridge.
 Import ListNotations.
 Open Scope Z_scope.
@@ -163,6 +163,58 @@ Proof. exact (@DiskCost.periodic_ge_disk). Qed.
 Print Assumptions C07_periodic_ge_disk.
 End M_C07_periodic_ge_disk.
 
+(* DISKREVOLVE, THE STREAM: once the schedule is exhausted, uf * (forward steps executed) + ub * N + wd * (checkpoints written to DISK) + rd * (checkpoints loaded from DISK), read off the reference executor, equals Dv (N-1) + N uf, and no list of the grammar costs less *)
+Module M_C07_disk_revolve_stream_cost.
+Import DiskCount.
+Theorem C07_disk_revolve_stream_cost :
+  forall (N ram disk uf ub wd rd : Z) (k : nat),
+         1 <= N ->
+         1 <= ram ->
+         0 < uf ->
+         exists L0 : list RevBlk.op,
+           RevConv.sequence RevConv.KDiskRevolve N ram disk uf ub wd rd = Actions.Ok (map RevBridge1.inj L0) /\
+           (let
+            '(s', m, _) :=
+             Sched.run_ops (DiskRun.disk_xparams N ram)
+               {|
+                 Sched.ob :=
+                   Sched.ORevF RevConv.KDiskRevolve N ram disk (RevConv.init_r (map RevBridge1.inj L0));
+                 Sched.started := false
+               |} Sched.mon0 (repeat Sched.Next k) in
+             Sched.is_exhausted s' = true ->
+             let c :=
+               uf * Exec.fwd_total (Exec.cnt (Sched.mx m)) + ub * N +
+               wd * Exec.disk_writes (Exec.cnt (Sched.mx m)) + rd * Exec.disk_reads (Exec.cnt (Sched.mx m)) in
+             c = DiskCost.Dv uf ub rd wd ram (N - 1) + N * uf /\
+             (forall s : list RevBlk.op, DiskBlk.DBlk ram 0 (N - 1) s -> c <= DiskCost.cost uf ub wd rd s)).
+Proof. exact (@DiskCount.disk_revolve_stream_cost). Qed.
+Print Assumptions C07_disk_revolve_stream_cost.
+End M_C07_disk_revolve_stream_cost.
+
+(* ... because the executor counters at exhaustion are the counts of the operation list (DiskRevolve and PeriodicDiskRevolve alike) *)
+Module M_C07_disk_stream_counts.
+Import DiskCount.
+Theorem C07_disk_stream_counts :
+  forall (kd : RevConv.rkind) (N ram disk : Z) (L0 : list RevBlk.op) (k : nat),
+         1 <= N ->
+         0 <= ram ->
+         (2 <= N -> 1 <= ram) ->
+         DiskBlk.DBlk ram 0 (N - 1) L0 ->
+         let
+         '(s', m, _) :=
+          Sched.run_ops (DiskRun.disk_xparams N ram)
+            {|
+              Sched.ob := Sched.ORevF kd N ram disk (RevConv.init_r (map RevBridge1.inj L0));
+              Sched.started := false
+            |} Sched.mon0 (repeat Sched.Next k) in
+          Sched.is_exhausted s' = true ->
+          Exec.fwd_total (Exec.cnt (Sched.mx m)) = RevCost.work L0 /\
+          Exec.disk_writes (Exec.cnt (Sched.mx m)) = DiskCost.nWD L0 /\
+          Exec.disk_reads (Exec.cnt (Sched.mx m)) = DiskCost.nRD L0.
+Proof. exact (@DiskCount.disk_stream_counts). Qed.
+Print Assumptions C07_disk_stream_counts.
+End M_C07_disk_stream_counts.
+
 (* (the lower bounds) every memory block ... *)
 Module M_C07_blk_cost_lower_bound.
 Import DiskCost.
@@ -187,7 +239,7 @@ Proof. exact (@DiskCost.DBlk_cost_lb). Qed.
 Print Assumptions C07_dblk_cost_lower_bound.
 End M_C07_dblk_cost_lower_bound.
 
-(* PARTIAL: for HRevolve (get_hopt_table) the cost theorem and monotonicity in the number of disk units are not proved: correspondence + clean-DP oracle only; for the disk classes the theorems above are about the operation lists -- the stream performs one Forward per Forward op with the same length (forward total: C07_revolve_forward_total; disk reads and writes of the stream are counted by the oracle); (this lemma is the structural work formula the Revolve theorem rests on) *)
+(* PARTIAL: for HRevolve (get_hopt_table) the cost theorem and monotonicity in the number of disk units are not proved: correspondence + clean-DP oracle only; the orderings between the classes (disk_le_revolve, periodic_ge_disk) are stated on the operation lists, whose counts the stream realises (C07_disk_stream_counts); (this lemma is the structural work formula the Revolve theorem rests on) *)
 Module M_C07_hrevolve_partial.
 Import RevCost.
 Theorem C07_hrevolve_partial :
